@@ -649,6 +649,8 @@ class TransportSim:
         cfg["server_idle"] = it[c.choose(len(it))]
         cfg["initial_rtt"] = (0.1, 0.05, 0.333)[c.choose(3)]
         cfg["foreign_tp"] = bool(p.get("foreign_tp_p")) and c.chance(p["foreign_tp_p"])
+        # one side advertises max_idle_timeout = 0 ("no idle timeout", RFC 9000 18.2), as a peer other than aioquic may
+        cfg["idle_zero_side"] = c.choose(2) if p.get("idle_zero_p") and c.chance(p["idle_zero_p"]) else None
         cfg["batch_rx"] = (0.0, 0.0005, 0.005)[c.choose(3)] if p.get("batch_rx_p") and c.chance(p["batch_rx_p"]) else None
         cfg["quiet_side"] = c.choose(2) if p.get("quiet_side_p") and c.chance(p["quiet_side_p"]) else None
         cfg["retry"] = bool(p.get("retry_p")) and c.chance(p["retry_p"])
@@ -861,6 +863,9 @@ class TransportSim:
             c._local_max_stream_data_bidi_local, c._local_max_stream_data_bidi_remote, c._local_max_stream_data_uni = split
         if self.cfg.get("foreign_tp") and not ep.is_client:
             self._advertise_foreign_parameters(ep.conn)
+        if self.cfg.get("idle_zero_side") is not None and self.cfg["idle_zero_side"] == (0 if ep.is_client else 1):
+            self._advertise_idle_zero(ep.conn)
+            ep.advertises_idle_zero = True
         boa = self.cfg.get("blackout_on_accept")
         if boa and not ep.is_client and self.k.now < self.cfg["t_fair"]:
             end = min(self.k.now + boa[0], self.cfg["t_fair"])
@@ -869,6 +874,29 @@ class TransportSim:
         hook = self.profile.get("post_create")
         if hook:
             hook(self, ep)
+
+    @staticmethod
+    def _advertise_idle_zero(conn):
+        """This endpoint advertises max_idle_timeout = 0 (it keeps its own configured period for itself): what the
+        instance serialises is changed, nothing in the peer under observation."""
+        import aioquic.quic.connection as qc
+
+        orig_ser = conn._serialize_transport_parameters
+
+        def serialize():
+            orig_push = qc.push_quic_transport_parameters
+
+            def push(buf, params):
+                params.max_idle_timeout = 0
+                return orig_push(buf, params)
+
+            qc.push_quic_transport_parameters = push
+            try:
+                return orig_ser()
+            finally:
+                qc.push_quic_transport_parameters = orig_push
+
+        conn._serialize_transport_parameters = serialize
 
     @staticmethod
     def _advertise_foreign_parameters(conn):
